@@ -22,6 +22,8 @@ RULE = ('Reference generator + E1: wire frames built from the grammar with '
 BOUNDS = {'quick': {'tags_8bit': 'all 256', 'tags_16bit': 'all 65536',
                     'timestamps': 'boundary set', 'vectors': '<=1 deviation'},
           'thorough': {'tags_8bit': 'all 256', 'tags_16bit': 'all 65536',
+                       'payload_patterns': '6^4 (x6) per wide tag',
+                       'flag_words': 'all 16384 with the unused bit set',
                        'timestamps': 'boundary set + 2^k sweep',
                        'vectors': '<=2 deviations'}}
 ASSUMPTIONS = ['reference decoder mc/refcodec.py; not asserted: duplicate '
@@ -35,6 +37,9 @@ QD = spec_table.BY_NAME['Queue.Declare']
 def tasks(tier, seed):
     out = [('tag8', t) for t in 'tbB']
     out += [('tag16', t, lo) for t in 'su' for lo in range(0, 65536, 8192)]
+    if tier == 'thorough':
+        out += [('patterns', t) for t in 'IilLfdDT']
+        out += [('flagwords', hi) for hi in range(0, 256, 16)]
     out += [('wide',), ('payloads',), ('strings',), ('unsorted',),
             ('timestamps',), ('headers',), ('invalid-on-send',), ('nested',)]
     out += [('methods', m.name) for m in spec_table.METHODS]
@@ -166,6 +171,39 @@ def run(task, ctx):
             check_value(ctx, task[1].encode() + struct.pack('>H', n),
                         'tag ' + task[1], through_frame=(n % 64 == 0 or
                                                          n % 256 == 255))
+    elif kind == 'patterns':
+        # every payload over the sharp byte set: 6^4 for 4-byte tags,
+        # 6^4 x 6 (high half free, low half one repeated byte) for 8-byte
+        tag = task[1]
+        sharp = (0x00, 0x01, 0x7f, 0x80, 0xff, 0xce)
+        width = {'I': 4, 'i': 4, 'f': 4, 'D': 5}.get(tag, 8)
+        for head in itertools.product(sharp, repeat=4):
+            tails = [b''] if width == 4 else \
+                [bytes([b]) * (width - 4) for b in sharp]
+            for tail in tails:
+                payload = bytes(head) + tail
+                if tag == 'L' and payload[0] & 0x80:
+                    continue
+                check_value(ctx, tag.encode() + payload, 'pattern ' + tag,
+                            through_frame=(head[0] == head[3]))
+    elif kind == 'flagwords':
+        # every first flag word with bits 15..2 free and bits 1..0 clear is
+        # covered by C02/C04 through the encoder; here every flag word with
+        # the unused bit 1 set, property data taken from the reference
+        for hi in range(task[1], task[1] + 16):
+            for lo in range(0, 256, 4):
+                word = (hi << 8) | lo | 2
+                mask = 0
+                for i, (_n, _t, bit) in enumerate(spec_table.PROPERTIES):
+                    if word & (1 << bit) and i < 13:
+                        mask |= 1 << i
+                props = corpus.props_for_subset(mask)
+                if word & 4:
+                    props['cluster_id'] = 'c'
+                data, _f = refcodec.enc_header_frame(9, props, 7,
+                                                     extra_flags=2)
+                ctx.case(('f', data), True)
+                check_frame(ctx, data, 'flag word %04x' % word)
     elif kind == 'wide':
         for n in A.INTS:
             for tag in INT_TAGS:
